@@ -184,8 +184,27 @@ func extractCrash(p *pkgs, f *facts) {
 			quitClosed = false
 		}
 	}
-	f.lean = append(f.lean, fmt.Sprintf("def crash : Crash.Params := ⟨%s, %s, %s, %s, %s, %s, %s⟩",
-		leanBool(cancels), leanBool(exits), leanBool(drains), leanBool(watches), leanBool(timeout), leanBool(linesDrained), leanBool(quitClosed)))
+	// Client.Start: every assignment to cmd.Stdin has the right-hand side `os.Stdin` (the *os.File itself), and there is one
+	stdinFile := false
+	if st := p.fn("Client", "Start"); st != nil {
+		n, bad := 0, 0
+		ast.Inspect(st.Body, func(m ast.Node) bool {
+			if as, ok := m.(*ast.AssignStmt); ok {
+				for i, l := range as.Lhs {
+					if strings.HasSuffix(exprString(l), ".Stdin") && exprString(l) != "os.Stdin" {
+						n++
+						if i >= len(as.Rhs) || exprString(as.Rhs[i]) != "os.Stdin" {
+							bad++
+						}
+					}
+				}
+			}
+			return true
+		})
+		stdinFile = n >= 1 && bad == 0
+	}
+	f.lean = append(f.lean, fmt.Sprintf("def crash : Crash.Params := ⟨%s, %s, %s, %s, %s, %s, %s, %s⟩",
+		leanBool(cancels), leanBool(exits), leanBool(drains), leanBool(watches), leanBool(timeout), leanBool(linesDrained), leanBool(quitClosed), leanBool(stdinFile)))
 	f.set("crash", map[string]interface{}{"waitCancelsCtx": cancels, "waitSetsExited": exits, "drainsAfterScannerError": drains,
-		"startWatchesExit": watches, "startHasTimeout": timeout, "linesAlwaysDrained": linesDrained, "streamEndClosesQuit": quitClosed, "waitGoroutines": nWait})
+		"startWatchesExit": watches, "startHasTimeout": timeout, "linesAlwaysDrained": linesDrained, "streamEndClosesQuit": quitClosed, "waitOnlyForProcess": stdinFile, "waitGoroutines": nWait})
 }
